@@ -12,7 +12,11 @@ CHECKS = {
          "judged by TLC against the abstract specification (MempoolTrace). Bounded exhaustive at model level, sampled at code level.",
          "DESIGN.md section 4 C08",
          "Trusted: TLC, the stub Feer (balances change only at RemoveStale), the projection of real transactions to abstract records "
-         "(read back from the real Transaction objects). Universes are small (5-6 transactions exhaustive, 8-17 random).",
+         "(read back from the real Transaction objects). Universes are small (5-6 transactions exhaustive, 8-17 random). Extension notarypool: the same invariants "
+         "are model-checked (NotaryPoolImpl, 3 universes, 2 named deviations) and judged by TLC (NotaryPoolTrace) on the node's SECOND pool, the P2P notary request pool: a "
+         "real core.Blockchain plus a real, never-started network.Server (RelayP2PNotaryRequest and the post-block refresh the server registers), real deposits, a designated "
+         "notary node, completed fallback/main transactions in blocks; per-depositor solvency is checked against the deposit record in Notary contract storage after every step "
+         "and TryGetData must return the payload of exactly the pooled fallback. The staleness rule (expired / on chain => gone) is evaluated as information (drift) only.",
          "TLA+ two-level spec; TLC exhaustive Impl=>Abstract; TLC simulation replay on real Pool; TLC trace validation of recorded steps"),
  "C01": ("model_checking",
          "TLC exhaustively checks Node.tla (replicas x AddBlock/Flush/Stop/Crash/Restart schedules over all vote/plain chains with committee "
@@ -257,6 +261,20 @@ CHECKS = {
          "SetGasLimit + Run with fee.Opcode prices; no syscall handler, so only CALL/CALLA contexts exist. A FAULT's leftover state is not judged. 'Cycle built' means a "
          "cycle among items reachable before or after an instruction.",
          "TLA+ refcount model checked by TLC; TLC-printed transition cover + simulation + counterexamples replayed on the real VM; TLC trace validation of per-instruction observations"),
+ "C13": ("model_checking",
+         "Spec as oracle: TLC evaluates an independent executable TLA+ specification of the side-effect-free NeoVM instruction set (VMSem.tla over VMVal.tla and the "
+         "pure-TLA+ big integers of spec/common/BigInt.tla: unbounded integers with explicit 256-bit range checks, conversion and equality rules, reference identity, "
+         "call frames, the exception-handling state machine) on about 11k (quick) / 142k (thorough) (script, initial stack) cases: opcode x boundary-operand tuples per "
+         "family (0, +-1, +-2, 2^63+-1, +-2^127, 2^255-1, -2^255, 2^255, -2^255-1, 2^256-1, 32/33-byte strings, empty and long strings, negative encodings), control-flow "
+         "and exception templates, exhaustive sequences of up to 3 instructions over 22 opcodes, and sequences of depth 10-14 from TLC simulation. The real VM runs every "
+         "case twice in fresh VMs: HALT/FAULT, the whole final stack (types, values, aliasing) and run-to-run equality of stack, state and gas must match. The oracle's "
+         "arithmetic is model-checked against algebraic laws on 576 boundary pairs (named deviation BugFloorDiv must be caught); a corrupted-oracle self-test must fail.",
+         "DESIGN.md section 4 C13",
+         "The specification is a transcription of the NeoVM (C#) reference semantics from knowledge of its source; there are no C# vectors in this tree (the neo-vm submodule is "
+         "empty). Every disagreement on the unchanged tree was triaged; uncertain corners are narrowed out (listed at the end of VMSem.tla; ~11 SKIP cases per run; one recorded "
+         "as drift only: ENDFINALLY in a called frame with an empty try stack while an exception is pending). The harness assembler/opcode table are trusted. Byte strings over "
+         "64 bytes are compared by length, head/tail and a sampled checksum; the text of engine-raised exceptions is not compared; gas values are compared run-to-run only.",
+         "TLC enumeration and simulation of an executable TLA+ specification; differential replay on pkg/vm; determinism double-run"),
 }
 
 NOT_YET = {}   # id -> reason (properties not (yet) claimed)
